@@ -520,6 +520,86 @@ func collectAtoms(e ast.Expr, truth bool, out *[]atom) {
 	*out = append(*out, atom{e: e, truth: truth})
 }
 
+// importLiteralExit: call is an immediately invoked function literal `func(...) R {...}()`
+// (what an extracted-and-inlined helper looks like) whose result #idx is now known to be
+// nil (want "nil") or true (want "true"). Every fact that holds at ALL returns of the
+// literal yielding that result also holds here: the literal ran to one of those returns.
+// The facts are about calls inside the literal, whose syntax belongs to the same function
+// tree, so provenance and callee resolution keep working.
+func (a *factAnalysis) importLiteralExit(st *fstate, call *ast.CallExpr, idx int, want string, add func(*Fact)) {
+	lit, ok := ast.Unparen(call.Fun).(*ast.FuncLit)
+	if !ok {
+		return
+	}
+	g := a.f.Closure(lit)
+	if g == nil {
+		return
+	}
+	var common map[string]*Fact
+	n := 0
+	for _, r := range g.Returns() {
+		if idx >= len(r.Results) {
+			return // bare returns of named results: not summarised
+		}
+		res := ast.Unparen(r.Results[idx])
+		match := false
+		switch want {
+		case "nil":
+			if isNilIdent(g.Info, res) {
+				match = true
+			} else if v := g.varOf(res); v != nil {
+				// a variable: it may be nil - unless it is known non-nil here, the return
+				// cannot be excluded, and its facts must be part of the intersection
+				fs := g.localFactsAt(r)
+				if b, ok := fs.bind[v]; ok && fs.Has(func(fa *Fact) bool { return fa.Kind == FCallFail && fa.Call == b.call && fa.Idx == b.idx }) {
+					continue
+				}
+				match = true
+			} else if _, isCall := res.(*ast.CallExpr); isCall {
+				if tv, ok := g.Info.Types[res]; ok && tv.Type != nil {
+					// a constructed error (fmt.Errorf, a wrapper): never nil
+					continue
+				}
+			}
+		case "true":
+			if v, ok := g.ConstVal(res); ok {
+				match = v == "true"
+			} else {
+				match = true
+			}
+		}
+		if !match {
+			continue
+		}
+		n++
+		fs := g.localFactsAt(r)
+		cur := map[string]*Fact{}
+		for _, fa := range fs.Facts {
+			if fa.Inherited || fa.Kind == FHeld {
+				continue
+			}
+			cur[fa.key] = fa
+		}
+		if common == nil {
+			common = cur
+		} else {
+			for k := range common {
+				if _, ok := cur[k]; !ok {
+					delete(common, k)
+				}
+			}
+		}
+	}
+	if n == 0 {
+		return
+	}
+	for _, fa := range common {
+		c := *fa
+		st.facts[c.key] = &c
+	}
+	_ = add
+}
+
 func isNilIdent(info *types.Info, e ast.Expr) bool {
 	id, ok := ast.Unparen(e).(*ast.Ident)
 	if !ok {
@@ -580,6 +660,7 @@ func (a *factAnalysis) addAtomFacts(st *fstate, at atom, cond ast.Expr) {
 			if isNil {
 				add(&Fact{Kind: FCallOK, Call: b.call, Idx: b.idx})
 				delete(st.facts, fmt.Sprintf("fail:%d:%d", b.call.Pos(), b.idx))
+				a.importLiteralExit(st, b.call, b.idx, "nil", add)
 			} else {
 				add(&Fact{Kind: FCallFail, Call: b.call, Idx: b.idx})
 				delete(st.facts, fmt.Sprintf("ok:%d:%d", b.call.Pos(), b.idx))
@@ -623,6 +704,7 @@ func (a *factAnalysis) addAtomFacts(st *fstate, at atom, cond ast.Expr) {
 				if at.truth {
 					add(&Fact{Kind: FTrue, Call: b.call, Idx: b.idx})
 					delete(st.facts, fmt.Sprintf("false:%d:%d", b.call.Pos(), b.idx))
+					a.importLiteralExit(st, b.call, b.idx, "true", add)
 				} else {
 					add(&Fact{Kind: FFalse, Call: b.call, Idx: b.idx})
 					delete(st.facts, fmt.Sprintf("true:%d:%d", b.call.Pos(), b.idx))
